@@ -87,8 +87,8 @@ static void ech_cases(void) {
 }
 
 static void inv_trsm_solve_cases(void) {
-  static const int NQ[] = {64, 65, 257, 513}, NT[] = {64, 65, 129, 257, 363, 513, 1025};
-  int nn = vx_tier ? 7 : 4;
+  static const int NQ[] = {64, 65, 257, 513, 1025}, NT[] = {64, 65, 129, 257, 363, 513, 1025, 1500, 1800};
+  int nn = vx_tier ? 9 : 5;
   for (int i = 0; i < nn; i++) { int n = vx_tier ? NT[i] : NQ[i];
     vx_group();
     pm *A = NULL, *Ainv = NULL;
